@@ -36,6 +36,13 @@ class Row(object):
         return self.key()
 
 
+class RowView(object):
+    """What guards of _dis read from the row object `m` of a decoded variant: its opcode bytes and afs."""
+
+    def __init__(self, opc, afs):
+        self.opc, self.afs = list(opc), afs
+
+
 class Cell(object):
     """One leaf of the decode trie."""
 
@@ -301,7 +308,7 @@ class X86Model(object):
             self._mmxnodes = (chain, digit_chain, memsize)
         return self._mmxnodes
 
-    def _mmx_scope(self, name, prefix, admode=None):
+    def _mmx_scope(self, name, prefix, admode=None, row=None):
         from .consteval import Native
         afs = self.afs
         me = Obj('self')
@@ -310,11 +317,17 @@ class X86Model(object):
         m_ = Obj('m')
         m_.name = name
         m_.modifs = {self.env['mmx']: True}
+        # the row the form comes from (opcode bytes / digit): guards keyed by opcode need it; without a row no opcode-keyed guard matches
+        # (the real row object of a /digit row carries the shifted digit as last element of opc)
+        m_.opc = (list(row.opc) + ([row.afs] if isinstance(row.afs, int) and (not row.opc or row.opc[-1] != row.afs or len(row.opc) < 3) else [])) if row is not None else []
+        m_.afs = row.afs if row is not None else self.env.get('noafs')
         lg = Obj('log')
         lg.debug = Native(lambda *a: None)
         scope = dict((k, v) for k, v in self.env.items() if isinstance(v, (str, int, bool, list, tuple, dict)) or v is None)
         scope.update({'self': me, 'm': m_, 'read_prefix': list(prefix), 'mm': afs.mm, 'xmm': afs.xmm, 'u32': afs.u32, 'u16': afs.u16, 'x86_afs': afs, 'log': lg, 'reg_cat': 0,
                  'mmx_prefixes': self.env.get('mmx_prefixes')})
+        for fname_, fnode_ in self.arch.funcs.items():
+            scope.setdefault(fname_, fnode_)
         # local names that _dis derives from the prefix list before the selection (e.g. the filtered mandatory prefixes)
         from .srcmodel import walk_no_nested
         if getattr(self, '_prefix_locals', None) is None:
@@ -330,17 +343,17 @@ class X86Model(object):
                 pass
         return me, scope
 
-    def dis_mmx_modes(self, name, prefix, swap, digit=False):
+    def dis_mmx_modes(self, name, prefix, swap, digit=False, row=None):
         """(opmode, admode, swap_args) that _dis selects for an MMX/SSE row, 'rejected' when it returns None,
         'never' when it reaches a NEVER/raise site."""
         from .consteval import _Return
         chain, digit_chain, _ = self._dis_mmx_nodes()
-        early = self.dis_mmx_rejected_early(name, prefix)
+        early = self.dis_mmx_rejected_early(name, prefix, row=row)
         if early == 'raises':
             return 'raises'
         if early:
             return 'rejected'
-        me, scope = self._mmx_scope(name, prefix)
+        me, scope = self._mmx_scope(name, prefix, row=row)
         scope['swap_args'] = swap
         ev = Evaluator({})
         ev.env = scope
@@ -354,7 +367,7 @@ class X86Model(object):
             raise AnalysisError('_dis MMX/SSE mode selection for %s is outside the evaluable subset: %s' % (name, e))
         return me.opmode, me.admode, scope['swap_args']
 
-    def dis_mmx_rejected_early(self, name, prefix, admode=None):
+    def dis_mmx_rejected_early(self, name, prefix, admode=None, row=None):
         """Does _dis return None for this MMX/SSE row and prefix list before looking at operands
         (top-level `if m.modifs[mmx]: ... return None` guards, e.g. the INVALID entries of mmx_suffixes)?"""
         from .srcmodel import walk_no_nested, parent
@@ -367,7 +380,7 @@ class X86Model(object):
                                and any(isinstance(x, ast.Return) for x in ast.walk(n)) and not any(isinstance(x, ast.Call) and 'get_afs' in u(x.func) for x in ast.walk(n))]
         if not self._mmx_early:
             return False
-        me, scope = self._mmx_scope(name, prefix, admode)
+        me, scope = self._mmx_scope(name, prefix, admode, row=row)
         scope['mmx_set_suffix'] = Native(self.mmx_set_suffix)
         ev = Evaluator({})
         ev.env = scope
